@@ -40,8 +40,7 @@ import (
 )
 
 const (
-	c10StepLimit = 10000           // VM step limit of the property ("under the step limit")
-	c10VLimitKiB = 4 * 1024 * 1024 // ulimit -v of a worker
+	c10StepLimit = 10000 // VM step limit of the property ("under the step limit")
 	c10ModPrefix = "github.com/glyphlang/glyph/"
 	c10VMBudget  = 64 << 20 // bytes one Execute may allocate (inputs are < 64 KiB, <= 10^4 steps)
 	// watchdogs: CPU time of the worker inside one step; generous (steps take micro- to milliseconds on small inputs)
@@ -51,6 +50,9 @@ const (
 	c10AckEvery   = 64
 	c10SpinCPU    = 10 * time.Second // an async body bounded by the step limit needs milliseconds
 )
+
+// ulimit -v of a worker: 2 GiB; the thorough tier, which lets a recursion really exhaust the 1 GB goroutine stack, 6 GiB
+var c10VLimitKiB = 2 * 1024 * 1024
 
 // steps
 const (
@@ -169,6 +171,7 @@ type c10Worker struct {
 	maxRatio map[string]float64
 	tables   *c10Tables
 	memSnap  map[string]int64
+	memSnapObj map[string]int64
 }
 
 func (w *c10Worker) alloc() uint64 {
@@ -214,45 +217,56 @@ func c10RepoFrame(stack string) string {
 	return "unknown"
 }
 
-// c10BigAllocSite: the repository function whose allocations grew most since the last call
-// (allocations larger than the profiling rate are always recorded by the runtime).
-func (w *c10Worker) bigAllocSite() string {
+// bigAllocSite: the repository function whose allocations grew most since the last call, the average
+// size of the objects it allocated since then, and whether that happened on the goroutine of an async
+// body.  (Allocations larger than the profiling rate are always recorded by the runtime; smaller
+// ones are sampled and scaled.)
+func (w *c10Worker) bigAllocSite() (site string, avgObj int64, inAsync bool) {
 	runtime.GC()
 	runtime.GC()
 	n, _ := runtime.MemProfile(nil, true)
 	recs := make([]runtime.MemProfileRecord, n+64)
 	n, ok := runtime.MemProfile(recs, true)
 	if !ok {
-		return "unknown"
+		return "unknown", 0, false
 	}
 	best, bestDelta := "unknown", int64(0)
 	for _, r := range recs[:n] {
 		fn := "unknown"
+		async := false
 		fr := runtime.CallersFrames(r.Stack())
 		for {
 			f, more := fr.Next()
-			if strings.HasPrefix(f.Function, c10ModPrefix) && !c10IsHarnessFrame(f.Function) {
+			if fn == "unknown" && strings.HasPrefix(f.Function, c10ModPrefix) && !c10IsHarnessFrame(f.Function) {
 				fn = c10FuncSuffixRE.ReplaceAllString(strings.TrimPrefix(f.Function, c10ModPrefix), "")
-				break
+			}
+			if strings.Contains(f.Function, "execAsync.func") {
+				async = true
 			}
 			if !more {
 				break
 			}
 		}
-		if fn == "unknown" {
-			continue
-		}
 		var key strings.Builder
 		for _, pc := range r.Stack() {
 			fmt.Fprintf(&key, "%x,", pc)
 		}
-		d := r.AllocBytes - w.memSnap[key.String()]
-		w.memSnap[key.String()] = r.AllocBytes
+		k := key.String()
+		d := r.AllocBytes - w.memSnap[k]
+		dObj := r.AllocObjects - w.memSnapObj[k]
+		w.memSnap[k], w.memSnapObj[k] = r.AllocBytes, r.AllocObjects
+		if fn == "unknown" {
+			continue
+		}
 		if d > bestDelta {
-			best, bestDelta = fn, d
+			best, bestDelta, inAsync = fn, d, async
+			avgObj = d
+			if dObj > 0 {
+				avgObj = d / dObj
+			}
 		}
 	}
-	return best
+	return best, avgObj, inAsync
 }
 
 var c10ExecRE = regexp.MustCompile(`^pkg/vm\.\(\*VM\)\.exec([A-Z][A-Za-z]*)$`)
@@ -338,9 +352,20 @@ func (w *c10Worker) step(idx uint32, kind string, step int, budget uint64, mode 
 		w.maxRatio[name] = r
 	}
 	if used > budget {
-		site := c10SiteName(w.bigAllocSite())
-		fs = append(fs, c10Finding{Kind: "alloc", Step: step, Key: fmt.Sprintf("alloc-out-of-proportion/%s/%s", name, site),
-			Desc: fmt.Sprintf("%s allocated %d bytes (budget for this input: %d), most of it in %s", name, used, budget, site)})
+		fn, avg, inAsync := w.bigAllocSite()
+		site := c10SiteName(fn)
+		switch {
+		case avg >= 1<<20:
+			fs = append(fs, c10Finding{Kind: "alloc", Step: step, Key: fmt.Sprintf("alloc-out-of-proportion/%s/%s", name, site),
+				Desc: fmt.Sprintf("%s allocated %d bytes (budget for this input: %d), most of it in %s in objects of about %d bytes", name, used, budget, site, avg)})
+		case inAsync && kind == "bc":
+			// many small objects on the goroutine of an async body: only possible when the body runs far more than the step limit
+			fs = append(fs, c10Finding{Kind: "goroutine", Step: step, Key: "vm/async-body-outlives-step-limit",
+				Desc: fmt.Sprintf("Execute (step limit %d) allocated %d bytes in small objects (about %d bytes each, mostly in %s) on the goroutine of an async body: the body ran far beyond the step limit, which is not applied to async bodies", c10StepLimit, used, avg, site)})
+		default:
+			fs = append(fs, c10Finding{Kind: "alloc", Step: step, Key: fmt.Sprintf("alloc-out-of-proportion/%s/many-small-objects/%s", name, site),
+				Desc: fmt.Sprintf("%s allocated %d bytes (budget for this input: %d) in small objects (about %d bytes each), mostly in %s", name, used, budget, avg, site)})
+		}
 		debug.FreeOSMemory()
 	}
 	return
@@ -522,7 +547,7 @@ func c10WorkerMain() {
 		os.Exit(3)
 	}
 	w := &c10Worker{out: out, prog: prog, sample: []metrics.Sample{{Name: "/gc/heap/allocs:bytes"}}, stackS: []metrics.Sample{{Name: "/memory/classes/heap/stacks:bytes"}},
-		maxRatio: map[string]float64{}, memSnap: map[string]int64{}}
+		maxRatio: map[string]float64{}, memSnap: map[string]int64{}, memSnapObj: map[string]int64{}}
 	tb := &c10Tables{}
 	if err := json.Unmarshal([]byte(os.Getenv("C10_TABLES")), tb); err != nil {
 		w.emit("e bad C10_TABLES: " + err.Error() + "\n")
@@ -619,7 +644,7 @@ type c10Msg struct {
 	labelf func() string
 	steps  int // number of steps of this case kind
 	inAsync bool // M: the mutated bytes lie inside an async body (or its OpAsync instruction)
-	retried bool // the step was killed by the CPU watchdog once and is being re-run alone with four times the limit
+	retried bool // the step was killed by the CPU watchdog once and is being re-run with twice the limit
 }
 
 func (m *c10Msg) inputLen() int {
@@ -745,9 +770,12 @@ type c10Sup struct {
 	// a worker and re-demonstrate the same finding); counted in Skipped
 	fatalOps map[byte]string
 	Skipped  map[string]int64
-	// number of times an async body was seen running on without the step limit: after the second,
+	// number of times an async body was seen running on without the step limit: after the first,
 	// mutations inside async bodies are disassembled but not executed (each costs CPU seconds and a worker)
 	asyncSpin int
+	// HardStop: past this instant the supervisor gives up (kills the worker, forgets queued cases); Aborted says so
+	HardStop time.Time
+	Aborted  bool
 }
 
 // c10ResultSink receives findings (the test wires it to vk.Result).
@@ -873,7 +901,7 @@ func (s *c10Sup) send(m *c10Msg) {
 }
 
 func (s *c10Sup) applySkip(m *c10Msg) {
-	if s.asyncSpin >= 2 && m.typ == 'M' && m.inAsync && m.upto == 0 {
+	if s.asyncSpin >= 1 && m.typ == 'M' && m.inAsync && m.upto == 0 {
 		m.upto = c10StDecompile
 		s.Skipped["vm/async-body-outlives-step-limit"]++
 		return
@@ -888,7 +916,7 @@ func (s *c10Sup) applySkip(m *c10Msg) {
 
 // Submit queues one case; it blocks (processing worker output) while the window is full.
 func (s *c10Sup) Submit(m *c10Msg) {
-	if s.fatal != "" {
+	if s.fatal != "" || s.Aborted {
 		return
 	}
 	if s.proc == nil {
@@ -906,7 +934,7 @@ func (s *c10Sup) Submit(m *c10Msg) {
 	s.Cases++
 	s.pending = append(s.pending, m)
 	s.send(m)
-	for len(s.pending) >= s.window && s.fatal == "" {
+	for len(s.pending) >= s.window && s.fatal == "" && !s.Aborted {
 		s.pump()
 	}
 }
@@ -939,7 +967,7 @@ func (s *c10Sup) containsFatal(m *c10Msg) (byte, bool) {
 
 // Drain waits until every submitted case is done (a flush marker is echoed by the worker).
 func (s *c10Sup) Drain() {
-	for len(s.pending) > 0 && s.fatal == "" {
+	for len(s.pending) > 0 && s.fatal == "" && !s.Aborted {
 		if s.proc == nil {
 			s.fatal = "no worker while cases are pending"
 			return
@@ -1069,6 +1097,10 @@ func c10ProcCPU(pid int) time.Duration {
 
 // pump processes worker output until at least one line was handled, the worker ended, or a watchdog fired.
 func (s *c10Sup) pump() {
+	if !s.HardStop.IsZero() && time.Now().After(s.HardStop) {
+		s.abort()
+		return
+	}
 	tick := time.NewTimer(200 * time.Millisecond)
 	defer tick.Stop()
 	select {
@@ -1095,6 +1127,25 @@ func (s *c10Sup) pump() {
 	}
 }
 
+// abort: the run is out of time; nothing queued is judged.
+func (s *c10Sup) abort() {
+	s.Aborted = true
+	if s.proc != nil {
+		s.proc.cmd.Process.Kill()
+		for range s.proc.lines {
+		}
+		select {
+		case <-s.proc.done:
+		case <-time.After(10 * time.Second):
+		}
+		close(s.proc.sendCh)
+		os.Remove(s.proc.errPath)
+		s.proc = nil
+	}
+	s.pending = nil
+	s.flushSent = false
+}
+
 func (s *c10Sup) watchdog() {
 	now := time.Now()
 	cpu := c10ProcCPU(s.proc.cmd.Process.Pid)
@@ -1118,7 +1169,7 @@ func (s *c10Sup) watchdog() {
 		if m := s.find(uint32(idx)); m != nil {
 			lim += time.Duration(m.inputLen()) * c10CPUPerByte
 			if m.retried {
-				lim *= 4
+				lim *= 2
 			}
 		}
 		if cpu-s.wCPU > lim {
@@ -1173,7 +1224,7 @@ func (s *c10Sup) workerEnded(killed string) {
 		resend = s.pending
 		if strings.HasPrefix(killed, "hang") && !m.retried {
 			// a slow step (a large allocation on a loaded machine) is not a hang: run it once more, first
-			// in a fresh worker, with four times the CPU allowance, and report what happens then
+			// in a fresh worker, with twice the CPU allowance, and report what happens then
 			m.retried = true
 			m.from = byte(step)
 			s.Retried++
@@ -1195,7 +1246,7 @@ func (s *c10Sup) workerEnded(killed string) {
 		s.fatal = "more than 400 worker restarts in one shard"
 		return
 	}
-	if len(resend) == 0 {
+	if len(resend) == 0 || s.Aborted {
 		return
 	}
 	if err := s.start(); err != nil {
